@@ -5,11 +5,11 @@ set -u
 PATCH="$1"; shift
 WT=/tmp/seedrun.$$
 git -C /repo worktree add -q "$WT" HEAD || exit 2
-trap 'git -C /repo worktree remove --force "$WT"' EXIT
+trap 'git -C /repo worktree remove --force "$WT"; rm -rf /tmp/seedrun.$$.out' EXIT
 git -C "$WT" apply "$PATCH" || { echo "PATCH DOES NOT APPLY"; exit 2; }
 cd /verif
 for P in "$@"; do
-  QUARA_REPO="$WT" ./check "$P" --tier "${TIER:-quick}" > /tmp/seedrun.$$.$P.log 2>&1
+  QUARA_REPO="$WT" VERIF_OUT="/tmp/seedrun.$$.out" ./check "$P" --tier "${TIER:-quick}" > /tmp/seedrun.$$.$P.log 2>&1
   rc=$?
   echo "== $P exit=$rc  $(grep -c '^VIOLATION' /tmp/seedrun.$$.$P.log) VIOLATION lines"
   grep -E "^ +[0-9]+  " /tmp/seedrun.$$.$P.log | head -8
